@@ -22,6 +22,7 @@ import (
 	"github.com/transparency-dev/witness/internal/witness"
 	"github.com/transparency-dev/witness/monitoring"
 	"github.com/transparency-dev/witness/verifmc/drvwrap"
+	"github.com/transparency-dev/witness/verifmc/lspwrap"
 	"github.com/transparency-dev/witness/verifmc/ref6962"
 	"github.com/transparency-dev/witness/verifmc/uni"
 	"golang.org/x/mod/sumdb/note"
@@ -120,6 +121,11 @@ type Env struct {
 	LogByID   map[string]LogCfg
 	// X holds per-environment extras set by checks (e.g. an HTTP handler).
 	X map[string]any
+	// mirror is the ground truth for the in-memory store: the bytes of every
+	// successful Set, recorded by a wrapper below the witness (the store's own
+	// read path is under test and cannot be its own ground truth).
+	mirrorMu sync.Mutex
+	mirror   map[string][]byte
 }
 
 // Signers resolves signer names.
@@ -183,6 +189,16 @@ func NewEnv(u *uni.U, cfg Config) *Env {
 	}
 	e.Sigs, e.WitVerifs = Signers(u, cfg.Signers)
 	var p persistence.LogStatePersistence = e.Raw
+	if e.DB == nil {
+		e.mirror = map[string][]byte{}
+		p = lspwrap.New(p, lspwrap.Hooks{Observe: func(op, id string, data []byte, err error) {
+			if op == "w.Set" && err == nil {
+				e.mirrorMu.Lock()
+				e.mirror[id] = append([]byte(nil), data...)
+				e.mirrorMu.Unlock()
+			}
+		}})
+	}
 	if cfg.Wrap != nil {
 		p = cfg.Wrap(p)
 	}
@@ -216,6 +232,14 @@ func (e *Env) Stored(id string) []byte {
 			panic(fmt.Sprintf("direct read of chkpts: %v", err))
 		}
 		return b
+	}
+	if e.mirror != nil {
+		e.mirrorMu.Lock()
+		defer e.mirrorMu.Unlock()
+		if b, ok := e.mirror[id]; ok {
+			return append([]byte(nil), b...)
+		}
+		return nil
 	}
 	r, err := e.Raw.ReadOps(id)
 	if err != nil {
